@@ -88,7 +88,13 @@ def module_project(uses, nsub, prog_uses, ext_uses, thirdparty, nograph=None, en
             if a == i:
                 L.append(f"use m{b}")
                 rel["uses"].add((f"module~m{i}", f"module~m{b}"))
-        if thirdparty and i == 3:
+        if thirdparty == "own" and i == 3:
+            # the project's own module carrying the name of a well-known library module: the project's module is meant
+            L.append("use omp_lib")
+            rel["uses"].add(("module~m3", "module~omp_lib"))
+            files["src/omp.f90"] = "module omp_lib\n!! the project's own omp_lib\nimplicit none\ninteger :: nthreads\nend module omp_lib\n"
+            rel["nodes"].add("module~omp_lib")
+        elif thirdparty and i == 3:
             L.append("use thirdparty_lib")
             rel["uses"].add(("module~m3", "thirdparty_lib"))
         L += ["implicit none", f"integer :: v{i}", "interface", f"module subroutine smp{i}()", f"end subroutine smp{i}", "end interface", f"end module m{i}"]
@@ -115,7 +121,7 @@ def gen_module_cases(tier):
     for k in range(len(pairs) + 1):
         for uses in itertools.combinations(pairs, k):
             for nsub in (0, 1, 2):
-                for prog_uses, ext_uses, third in (((), (), False), ((1,), (), False), ((1, 3), (2,), True), ((), (3,), True)):
+                for prog_uses, ext_uses, third in (((), (), False), ((1,), (), False), ((1, 3), (2,), True), ((), (3,), True), ((1,), (), "own")):
                     yield ("modules", tuple(uses), nsub, prog_uses, ext_uses, third)
 
 
